@@ -23,8 +23,14 @@ Proof. destruct dst, src; simpl; try reflexivity. apply map_length. Qed.
 
 (* ------------------------------------------------------------------ argsort *)
 
+Lemma sorts_asc_length x o : sorts_asc x o -> length o = length x.
+Proof. intros [Hp _]. rewrite (Permutation_length Hp). apply seq_length. Qed.
+
+Lemma sorts_asc_rev_perm x o n : sorts_asc x o -> n = length x -> Permutation (rev o) (seq 0 n).
+Proof. intros [Hp _] ->. eapply Permutation_trans; [apply Permutation_sym, Permutation_rev|exact Hp]. Qed.
+
 Lemma argsort_length argsort x : argsort_ok argsort -> length (argsort x) = length x.
-Proof. intros H. destruct (H x) as [Hp _]. rewrite (Permutation_length Hp). apply seq_length. Qed.
+Proof. intros H. apply sorts_asc_length, H. Qed.
 
 Lemma argsort_rev_perm argsort x : argsort_ok argsort -> Permutation (rev (argsort x)) (seq 0 (length x)).
 Proof. intros H. destruct (H x) as [Hp _]. eapply Permutation_trans; [apply Permutation_sym, Permutation_rev|exact Hp]. Qed.
